@@ -137,7 +137,7 @@ def same(a, b):
 MERGE_PARAMS = {"CountMinLinear": ["width", "depth"], "CountMinLog16": ["width", "depth", "max_count", "num_reserved"], "CountMinLog8": ["width", "depth", "max_count", "num_reserved"], "HyperLogLog": ["p", "seed"], "HeavyHitters": ["width", "depth", "max_key_len"]}
 
 
-def try_pair(chk, ca, a, cb, b, how, records_only=False, high=False):
+def try_pair(chk, ca, a, cb, b, how, records_only=False, high=False, empty_self=False):
     """run merge on the real classes for one ordered pair of configurations -> failing-input dict / None
     (records_only: the other operand has seen records without elements - n_records > 0, n_added == 0)"""
     try:
@@ -145,12 +145,16 @@ def try_pair(chk, ca, a, cb, b, how, records_only=False, high=False):
     except (ValueError, TypeError, MemoryError, OverflowError):
         return None
     for s in (x, y):
+        if empty_self and s is x:
+            continue  # the receiving sketch has seen nothing yet (e.g. a worker whose items all failed)
         if records_only and s is y:
             if hasattr(s, "n_added_records"):
                 s.n_added_records[1] += 4  # as helpers._worker books processed records
             continue
         s.add(b"k1")
         s.add(b"k2")
+        if empty_self and hasattr(s, "n_added_records"):
+            s.n_added_records[1] += 3
     if high and hasattr(x, "cms"):
         # counters far above the reserved range whose sum overflows the counter type
         top = int(np.iinfo(x.cms.dtype).max)
@@ -262,6 +266,9 @@ def replay_search(chk, A=None, B=None):
                 if r:
                     return r
                 r = try_pair(chk, ca, a, cb, b, "bounded grid on the real classes (counters whose sum overflows the counter type)", high=True)
+                if r:
+                    return r
+                r = try_pair(chk, ca, a, cb, b, "bounded grid on the real classes (empty receiving sketch, other operand with records)", empty_self=True)
                 if r:
                     return r
     return None
